@@ -194,21 +194,36 @@ def queries_f(rng, xs, count, special=True):
     return [xs[0], xs[-1]] + pool[:max(0, count - 2)]
 
 
-LAYS_1D = ["c", "c", "s2", "s3", "rev"]
-LAYS_ND = ["c", "c", "f", "s2", "rev", "perm", "w"]
+LAYS_1D = ["c", "c", "s2", "s3", "rev", "rev", "w"]
+LAYS_ND = ["c", "c", "f", "s2", "rev", "perm", "w", "revl", "neg"]
+
+
+def auto_lay(pool, *key):
+    """a memory layout chosen from the content of the case (no layout given by the caller): every family of every check
+    meets every layout of every array argument; half of the cases stay in plain C order"""
+    import zlib
+    h = zlib.crc32(" ".join(str(k) for k in key).encode())
+    if h & 1:
+        return "c"
+    return pool[(h >> 1) % len(pool)]
 
 
 # ------------------------------------------------------------------ protocol line builders
 from vlib import t_xspec, t_ndarr, t_strat, t_buf, t_vec, fq, ff, shape_size
 
 
-def i1_line(S, x, shape, flat, strat, entry, dtag="dyn", xlay="c", dlay="c"):
+def i1_line(S, x, shape, flat, strat, entry, dtag="dyn", xlay=None, dlay=None):
     fmt = fmt_of(S)
+    xlay = xlay or auto_lay(LAYS_1D, "x", x, entry)
+    dlay = dlay or auto_lay(LAYS_ND, "d", shape, flat[:4], entry)
     return f"{S} i1 {dtag} {t_xspec(x, fmt, xlay)} {t_ndarr(shape, flat, fmt, dlay)} {t_strat(strat, fmt)} {entry}"
 
 
-def i2_line(S, x, y, shape, flat, ext, entry, dtag="dyn", xlay="c", ylay="c", dlay="c"):
+def i2_line(S, x, y, shape, flat, ext, entry, dtag="dyn", xlay=None, ylay=None, dlay=None):
     fmt = fmt_of(S)
+    xlay = xlay or auto_lay(LAYS_1D, "x", x, entry)
+    ylay = ylay or auto_lay(LAYS_1D, "y", y, entry)
+    dlay = dlay or auto_lay(LAYS_ND, "d", shape, flat[:4], entry)
     return (f"{S} i2 {dtag} {t_xspec(x, fmt, xlay)} {t_xspec(y, fmt, ylay)} "
             f"{t_ndarr(shape, flat, fmt, dlay)} {int(ext)} {entry}")
 
@@ -281,24 +296,34 @@ def e_scalar(S, *q):
     return "scalar " + " ".join(fmt(v) for v in q)
 
 
+def e_idx(S, *q):
+    """consecutive `get_index_left_of` calls on one interpolator (2-D: x1 y1 x2 y2 ...)"""
+    fmt = fmt_of(S)
+    return f"idx {len(q)} " + " ".join(fmt(v) for v in q)
+
+
 def e_single(S, *q):
     fmt = fmt_of(S)
     return "single " + " ".join(fmt(v) for v in q)
 
 
-def e_into(S, q, bufshape, lay="c"):
+def e_into(S, q, bufshape, lay=None):
     fmt = fmt_of(S)
     qs = q if isinstance(q, (list, tuple)) else [q]
+    lay = lay or auto_lay(LAYS_ND, "b", bufshape, qs)
     return "into " + " ".join(fmt(v) for v in qs) + " " + t_buf(bufshape, lay)
 
 
-def e_array(S, qshape, *qlists, qtag="dyn", lay="c"):
+def e_array(S, qshape, *qlists, qtag="dyn", lay=None):
     fmt = fmt_of(S)
+    lay = lay or auto_lay(LAYS_ND, "q", qshape, qlists[0][:6])
     return f"array {qtag} " + " ".join(t_ndarr(qshape, ql, fmt, lay) for ql in qlists)
 
 
-def e_ainto(S, qshape, bufshape, *qlists, qtag="dyn", lay="c", blay="c"):
+def e_ainto(S, qshape, bufshape, *qlists, qtag="dyn", lay=None, blay=None):
     fmt = fmt_of(S)
+    lay = lay or auto_lay(LAYS_ND, "q", qshape, qlists[0][:6])
+    blay = blay or auto_lay(LAYS_ND, "b", bufshape, qlists[0][:6])
     return f"ainto {qtag} " + " ".join(t_ndarr(qshape, ql, fmt, lay) for ql in qlists) + " " + t_buf(bufshape, blay)
 
 
